@@ -76,50 +76,9 @@ def run(ctx):
     if not splat_ok:
         raise AnalysisError("ConnectionCls(**self.conn_kw) splat not found; cannot tell which keywords reach connections")
 
-    # the normaliser: unfiltered?
+    from . import c18_rows
     norm = m.func(f"{PM}._default_key_normalizer")
-    nparams = norm.params()
-    if len(nparams) != 2:
-        raise AnalysisError("_default_key_normalizer signature changed")
-    key_class_p, ctx_p = nparams
-    ret_calls = [r.value for r in astq.walk_fn(norm.node) if isinstance(r, ast.Return) and r.value is not None]
-    ctx_local = None
-    unfiltered = True
-    why = []
-    for rv in ret_calls:
-        if not (isinstance(rv, ast.Call) and isinstance(rv.func, ast.Name) and rv.func.id == key_class_p and not rv.args
-                and len(rv.keywords) == 1 and rv.keywords[0].arg is None and isinstance(rv.keywords[0].value, ast.Name)):
-            unfiltered = False
-            why.append(f"return is not {key_class_p}(**context): {astq.text(rv)}")
-        else:
-            ctx_local = rv.keywords[0].value.id
-    if not ret_calls:
-        raise AnalysisError("normaliser has no return")
-    dropped = []
-    if ctx_local:
-        # context must be a copy of the request context
-        srcs = astq.assigned_values(norm.node, ctx_local)
-        if not any(isinstance(s, ast.Call) and astq.call_text(s) in (f"{ctx_p}.copy", "dict") for s in srcs):
-            unfiltered = False
-            why.append(f"{ctx_local} is not a copy of the request context")
-        if any(not (isinstance(s, ast.Call) and astq.call_text(s) in (f"{ctx_p}.copy", "dict")) for s in srcs):
-            unfiltered = False
-            why.append(f"{ctx_local} is rebuilt (possibly filtered) after the copy")
-        for kind, key, val, node in _dict_mutations(norm.node, ctx_local):
-            if kind in ("del", "popitem", "clear"):
-                dropped.append(astq.text(astq.stmt_of(node)))
-            elif kind == "pop":
-                # allowed only as the rename idiom  context["key_" + k] = context.pop(k)
-                st = astq.stmt_of(node)
-                ok = (isinstance(st, ast.Assign) and st.value is node and isinstance(st.targets[0], ast.Subscript)
-                      and isinstance(st.targets[0].slice, ast.BinOp) and isinstance(st.targets[0].slice.left, ast.Constant)
-                      and st.targets[0].slice.left.value == "key_" and astq.text(st.targets[0].slice.right) == astq.text(key))
-                if not ok:
-                    dropped.append(astq.text(st))
-    if dropped:
-        unfiltered = False
-        why.append("drops entries: " + "; ".join(dropped))
-    ctx.ob(R1, norm.qual, "key_class(**context) unfiltered", unfiltered, "; ".join(why), node=norm.node)
+    unfiltered = c18_rows.r4_normaliser(ctx, R4, R1)
 
     A = {("HTTPConnectionPool.__init__", p) for p in pool_p} | {("HTTPSConnectionPool.__init__", p) for p in spool_p} \
         | {("HTTPConnection.__init__", p) for p in conn_p} | {("HTTPSConnection.__init__", p) for p in sconn_p}
@@ -140,113 +99,9 @@ def run(ctx):
     cfk = m.func(f"{PM}.PoolManager.connection_from_pool_key")
     cfh = m.func(f"{PM}.PoolManager.connection_from_host")
     newpool = m.func(f"{PM}.PoolManager._new_pool")
-    # connection_from_context: key constructor gets X, connection_from_pool_key gets request_context=X
-    rc = cfc.params()[0]
-    key_arg = pool_arg = None
-    key_var = None
-    for c in astq.calls(cfc.node):
-        t = astq.call_text(c)
-        if t == "self.connection_from_pool_key":
-            pool_arg = astq.arg(c, 1, "request_context")
-            kx = astq.arg(c, 0, "pool_key")
-            key_var = kx.id if isinstance(kx, ast.Name) else None
-    if key_var:
-        for v in astq.assigned_values(cfc.node, key_var):
-            if isinstance(v, ast.Call) and v.args:
-                key_arg = v.args[0]
-                keyfn = v.func
-    if key_arg is None or pool_arg is None:
-        raise AnalysisError("connection_from_context: key-function call or connection_from_pool_key call not recognised")
-    same = astq.text(key_arg) == astq.text(pool_arg) == rc
-    rebinds = [v for v in astq.assigned_values(cfc.node, rc)]
-    ctx.ob(R2, cfc.qual, "key function and pool creation receive the same context object",
-           same and not rebinds, f"key gets {astq.text(key_arg)}, pool gets {astq.text(pool_arg)}, rebinds={len(rebinds)}", node=cfc.node)
-    # key fn derives from self.key_fn_by_scheme[scheme of this context]
-    srcs = astq.sources_of(cfc.node, keyfn)
-    ok = any("self.key_fn_by_scheme" in astq.text(s) for s in srcs) and len(srcs) == 1
-    ctx.ob(R2, cfc.qual, "key function is looked up in key_fn_by_scheme", ok, "; ".join(astq.text(s) for s in srcs))
-    # mutations of the context between key and pool: none allowed after the key is computed except 'strict' pop before
-    muts = _dict_mutations(cfc.node, rc)
-    bad = [astq.text(astq.stmt_of(n)) for kind, key, val, n in muts
-           if not (kind == "pop" and isinstance(key, ast.Constant) and key.value == "strict")]
-    ctx.ob(R2, cfc.qual, "context not altered between keying and pool creation", not bad, "; ".join(bad))
-
-    # connection_from_pool_key: _new_pool(request_context=<param>) and scheme/host/port read from the same param
-    rc2 = cfk.params()[1] if len(cfk.params()) > 1 else None
-    np_calls = [c for c in astq.calls(cfk.node) if astq.call_text(c) == "self._new_pool"]
-    ctx.sites(R2, len(np_calls), 1, "_new_pool call in connection_from_pool_key")
-    for c in np_calls:
-        a = astq.arg(c, 3, "request_context")
-        ok = a is not None and astq.text(a) == rc2 and not astq.assigned_values(cfk.node, rc2)
-        ctx.ob(R2, cfk.qual, "_new_pool receives the keyed context", ok, astq.text(c), node=c)
-        for i, nm in enumerate(("scheme", "host", "port")):
-            av = astq.arg(c, i, nm)
-            srcs = astq.sources_of(cfk.node, av) if av is not None else []
-            ok2 = bool(srcs) and all(isinstance(s, ast.Subscript) and astq.text(s.value) == rc2 and isinstance(s.slice, ast.Constant) and s.slice.value == nm for s in srcs)
-            ctx.ob(R2, cfk.qual, f"_new_pool {nm} comes from the keyed context", ok2, "; ".join(astq.text(s) for s in srcs), node=c)
-
-    # _new_pool: pool_cls(host, port, **request_context); only removals; fallback copy of defaults
-    np_rc = "request_context"
-    if np_rc not in newpool.params():
-        raise AnalysisError("_new_pool has no request_context parameter")
-    rets = [r.value for r in astq.walk_fn(newpool.node) if isinstance(r, ast.Return) and r.value is not None]
-    ok = bool(rets)
-    for rv in rets:
-        if not (isinstance(rv, ast.Call) and any(k.arg is None and astq.text(k.value) == np_rc for k in rv.keywords)):
-            ok = False
-        else:
-            srcs = astq.sources_of(newpool.node, rv.func)
-            if not all("self.pool_classes_by_scheme" in astq.text(s) for s in srcs):
-                ok = False
-            extra_kw = [k.arg for k in rv.keywords if k.arg is not None]
-            if extra_kw:
-                ok = False
-    ctx.ob(R2, newpool.qual, "pool is constructed from **request_context only", ok, "; ".join(astq.text(r) for r in rets), node=newpool.node)
-    for v in astq.assigned_values(newpool.node, np_rc):
-        ok = isinstance(v, ast.Call) and astq.call_text(v) == "self.connection_pool_kw.copy"
-        ctx.ob(R2, newpool.qual, f"request_context rebinding `{astq.text(v)}`", ok, "only the default-copy fallback may rebind the context")
     ssl_kw = set(fold.need(PM, "SSL_KEYWORDS"))
-    for kind, key, val, n in _dict_mutations(newpool.node, np_rc):
-        st = astq.stmt_of(n)
-        if kind == "pop":
-            ok = True  # removals never add settings from elsewhere
-            detail = "removal"
-        elif kind == "store":
-            # only the blocksize default may be written, and only under a None test
-            ok = isinstance(key, ast.Constant) and key.value == "blocksize" and not astq.names_in(val) - {"_DEFAULT_BLOCKSIZE"}
-            detail = "default for a missing entry" if ok else "adds/overrides a setting that was not keyed"
-        else:
-            ok, detail = False, f"{kind} on the keyed context"
-        ctx.ob(R2, newpool.qual, f"mutation `{astq.text(st)[:80]}`", ok, detail, node=st)
-    # SSL keywords are only stripped for plain http
-    for n in astq.walk_fn(newpool.node):
-        if isinstance(n, ast.For) and "SSL_KEYWORDS" in astq.text(n.iter):
-            g = astq.enclosing(n, ast.If)
-            ok = g is not None and astq.text(g.test) in ('scheme == "http"', "scheme == 'http'")
-            ctx.ob(R2, newpool.qual, "SSL keywords stripped only for scheme http", ok, astq.text(g.test) if g is not None else "unguarded", node=n)
-
-    # connection_from_host: context = merge(pool_kwargs) + scheme/host/port of this call
-    rcn = (astq.assigned_from(cfh.node, lambda v: isinstance(v, ast.Call) and astq.call_text(v) == "self._merge_pool_kwargs") or ["request_context"])[0]
-    rcvs = [v for v in astq.assigned_values(cfh.node, rcn)]
-    ok = len(rcvs) == 1 and isinstance(rcvs[0], ast.Call) and astq.call_text(rcvs[0]) == "self._merge_pool_kwargs"
-    ctx.ob(R2, cfh.qual, "request context starts from the merged defaults", ok, "; ".join(astq.text(v) for v in rcvs))
-    stores = {}
-    for kind, key, val, n in _dict_mutations(cfh.node, rcn):
-        if kind == "store" and isinstance(key, ast.Constant):
-            stores[key.value] = val
-        else:
-            ctx.ob(R2, cfh.qual, f"mutation `{astq.text(astq.stmt_of(n))[:80]}`", False, "unexpected mutation of the request context")
-    for nm in ("scheme", "host", "port"):
-        v = stores.get(nm)
-        srcs = astq.sources_of(cfh.node, v) if v is not None else []
-        names = set()
-        for s in srcs:
-            names |= {x.replace("<param:", "").rstrip(">") for x in astq.names_in(s)}
-        ok = v is not None and nm in names
-        ctx.ob(R2, cfh.qual, f"context[{nm!r}] derives from the {nm} argument", ok, "; ".join(astq.text(s) for s in srcs))
-    rets = [r.value for r in astq.walk_fn(cfh.node) if isinstance(r, ast.Return) and r.value is not None]
-    ok = all(isinstance(r, ast.Call) and astq.call_text(r) == "self.connection_from_context" and astq.text(r.args[0]) == rcn for r in rets) and rets
-    ctx.ob(R2, cfh.qual, "the merged context is the one that is keyed", bool(ok), "; ".join(astq.text(r) for r in rets))
+    c18_rows.r2_one_context(ctx, R2, ssl_kw)
+    c18_rows.r2_pool_key_site(ctx, R2, R6)
 
     # ---------------------------------------------------------------- R3
     sites = 0
@@ -282,7 +137,7 @@ def run(ctx):
                         bad = "conditionally aliased without copy"
                 if isinstance(p, ast.Return):
                     bad = "returned without copy"
-                if isinstance(p, ast.Call) and n in p.args:
+                if isinstance(p, ast.Call) and n in p.args and astq.call_text(p) not in ("dict", "copy.copy", "copy.deepcopy", "len", "bool", "sorted", "frozenset"):
                     bad = f"passed uncopied to {astq.call_text(p)}"
                 if isinstance(p, ast.keyword) and p.arg is not None:
                     bad = "passed uncopied as keyword"
@@ -290,49 +145,7 @@ def run(ctx):
     ctx.sites(R3, sites, 2, "uses of connection_pool_kw")
     # PoolManager.__init__ stores the **kw dict itself (fresh per call) - fine; ProxyManager mutates before super().__init__
 
-    # ---------------------------------------------------------------- R4
-    cl = ctx_local or "context"
-    lowered = {}
-    frozen_items = {}
-    tupled = False
-    for n in astq.walk_fn(norm.node):
-        if isinstance(n, ast.Assign) and isinstance(n.targets[0], ast.Subscript) and astq.text(n.targets[0].value) == cl:
-            key = n.targets[0].slice
-            v = n.value
-            if isinstance(key, ast.Constant) and isinstance(v, ast.Call) and isinstance(v.func, ast.Attribute) and v.func.attr == "lower" \
-                    and astq.text(v.func.value) == f"{cl}[{key.value!r}]":
-                lowered[key.value] = True
-            if isinstance(v, ast.Call) and astq.call_text(v) == "frozenset" and v.args:
-                inner = v.args[0]
-                loop = astq.enclosing(n, ast.For)
-                by_items = isinstance(inner, ast.Call) and isinstance(inner.func, ast.Attribute) and inner.func.attr == "items"
-                if loop is not None:
-                    try:
-                        keys = fold.ev(loop.iter, PM)
-                    except Exception:
-                        keys = ()
-                    for k in keys:
-                        frozen_items[k] = by_items
-                elif isinstance(key, ast.Constant):
-                    frozen_items[key.value] = by_items
-            if isinstance(key, ast.Constant) and key.value == "socket_options" and isinstance(v, ast.Call) and astq.call_text(v) == "tuple":
-                tupled = True
-    for nm in ("scheme", "host"):
-        ctx.ob(R4, norm.qual, f"{nm} lower-cased", lowered.get(nm, False), "" if lowered.get(nm) else f"no `{cl}[{nm!r}] = {cl}[{nm!r}].lower()`")
-    for nm in ("headers", "_proxy_headers", "_socks_options"):
-        ctx.ob(R4, norm.qual, f"{nm} frozen by value (items())", frozen_items.get(nm, False),
-               "" if frozen_items.get(nm) else "mapping field is not frozen as frozenset(mapping.items()): values would not take part in the key")
-    ctx.ob(R4, norm.qual, "socket_options frozen as tuple", tupled)
-    # default None for missing fields
-    dflt = False
-    for n in astq.walk_fn(norm.node):
-        if isinstance(n, ast.For) and "_fields" in astq.text(n.iter):
-            for s in ast.walk(n):
-                if isinstance(s, ast.Assign) and isinstance(s.value, ast.Constant) and s.value.value is None and astq.text(s.targets[0]).startswith(f"{cl}["):
-                    g = astq.enclosing(s, ast.If)
-                    if g is not None and isinstance(g.test, ast.Compare) and isinstance(g.test.ops[0], ast.NotIn):
-                        dflt = True
-    ctx.ob(R4, norm.qual, "missing fields default to None (only when absent)", dflt)
+    # ---------------------------------------------------------------- R4 (the normaliser itself: rows, above)
     # key_fn_by_scheme: both schemes use the normaliser with PoolKey
     for name in ("key_fn_by_scheme",):
         st = m.assigns.get(PM, {}).get(name)
@@ -351,51 +164,8 @@ def run(ctx):
     for k in sorted(ssl_kw):
         ctx.ob(R5, f"{PM}.PoolKey", f"SSL keyword {k} is keyed", k in K)
 
-    # ---------------------------------------------------------------- R6
-    pk_param = cfk.params()[0]
-    gets = [c for c in astq.calls(cfk.node) if astq.call_text(c) == "self.pools.get"]
-    sets = [n for n in astq.walk_fn(cfk.node) if isinstance(n, ast.Subscript) and isinstance(n.ctx, ast.Store) and astq.text(n.value) == "self.pools"]
-    ctx.sites(R6, len(gets) + len(sets), 2, "cache accesses")
-    for c in gets:
-        ctx.ob(R6, cfk.qual, "lookup uses the computed key", bool(c.args) and astq.text(c.args[0]) == pk_param, astq.text(c), node=c)
-    for n in sets:
-        st = astq.stmt_of(n)
-        okk = astq.text(n.slice) == pk_param
-        srcs = astq.sources_of(cfk.node, st.value)
-        # flow-insensitive: the earlier `pool = self.pools.get(pool_key)` (same key) is harmless
-        okv = all(isinstance(s, ast.Call) and (astq.call_text(s) == "self._new_pool"
-                  or (astq.call_text(s) == "self.pools.get" and s.args and astq.text(s.args[0]) == pk_param)) for s in srcs) \
-            and any(isinstance(s, ast.Call) and astq.call_text(s) == "self._new_pool" for s in srcs)
-        ctx.ob(R6, cfk.qual, "insertion uses the computed key and the pool just created", okk and bool(okv), astq.text(st), node=st)
-    ok = not astq.assigned_values(cfk.node, pk_param)
-    ctx.ob(R6, cfk.qual, "key not re-bound", ok)
-
     # ---------------------------------------------------------------- R7
-    pxi = m.func(f"{PM}.ProxyManager.__init__")
-    kwname = pxi.node.args.kwarg.arg if pxi.node.args.kwarg else None
-    if not kwname:
-        raise AnalysisError("ProxyManager.__init__ has no **kw")
-    stores = {}
-    for kind, key, val, n in _dict_mutations(pxi.node, kwname):
-        if kind == "store" and isinstance(key, ast.Constant):
-            stores[key.value] = (val, n)
-    sup = [c for c in astq.calls(pxi.node) if astq.call_text(c) == "super().__init__"]
-    ctx.sites(R7, len(sup), 1, "super().__init__ call")
-    for nm, attr in (("_proxy", "proxy"), ("_proxy_headers", "proxy_headers"), ("_proxy_config", "proxy_config")):
-        v = stores.get(nm)
-        ok = v is not None and astq.text(v[0]) == f"self.{attr}" and v[1].lineno < sup[0].lineno
-        ctx.ob(R7, pxi.qual, f"context[{nm!r}] = self.{attr} before super().__init__", ok, astq.text(v[0]) if v else "missing")
-    ok = any(k.arg is None and astq.text(k.value) == kwname for k in sup[0].keywords)
-    ctx.ob(R7, pxi.qual, "the augmented dict is what the base constructor stores", ok, astq.text(sup[0]))
-    # ProxyConfig carries all four proxy TLS options
-    pc_calls = [c for c in astq.calls(pxi.node) if astq.call_text(c) == "ProxyConfig"]
-    ctx.sites(R7, len(pc_calls), 1, "ProxyConfig construction")
-    want = {"proxy_ssl_context", "use_forwarding_for_https", "proxy_assert_hostname", "proxy_assert_fingerprint"}
-    got = set()
-    for c in pc_calls:
-        for a in list(c.args) + [k.value for k in c.keywords]:
-            got |= astq.names_in(a)
-    ctx.ob(R7, pxi.qual, "ProxyConfig built from all four proxy TLS options", want <= got, f"missing {sorted(want - got)}")
+    c18_rows.r7_proxy_context(ctx, R7)
 
 
 # ---------------------------------------------------------------------------- R8 (added after seeded change C18/merge-truthiness)
